@@ -266,7 +266,7 @@ func scenarios() []hx.Scenario {
 	// (hash of the name) spreads them evenly; the set is unchanged.
 	sort.SliceStable(out, func(i, j int) bool { return nameHash(out[i].Name) < nameHash(out[j].Name) })
 	// small family, placed first
-	out = append(outerParentScenarios(), out...)
+	out = append(append(outerQueueScenarios(), outerParentScenarios()...), out...)
 	return out
 }
 
